@@ -82,9 +82,6 @@ Proof. exact fcontract_of_acc. Qed.
 
 (* the contract is not vacuous for the modelled printf/strtod: binary64 1/3, -0, nan, inf, the least subnormal,
    1e22, 123456, 0.0001, binary32 0.1f and FLT_MAX print as glibc prints them and come back within the stated digits *)
-(* printf with the precisions the property names (independent of Gen.v, so that these examples do not depend on the
-   constants of the tree under check) *)
-Definition F16 (sz : nat) (e : list byte) : list byte := fmt_g (if (sz =? 8)%nat then 16 else 7) (classify (fp_of sz) e).
 Example C04_fmt_model_examples :
   F16 8 [x55; x55; x55; x55; x55; x55; xd5; x3f] = [x30; x2e; x33; x33; x33; x33; x33; x33; x33; x33; x33; x33; x33; x33; x33; x33; x33; x33]
   /\ F16 8 [x00; x00; x00; x00; x00; x00; x00; x80] = [x2d; x30]
@@ -106,10 +103,6 @@ Proof. vm_compute. repeat split; reflexivity. Qed.
 
 (* ---- the full statement ("for every single-character delimiter", strings with leading blanks) is false
    of the code: [('s','S3'),('i','i4')], rows ("  a",1),("  b",2), delim ',' *)
-Definition kf_witness : table :=
-  {| tdt := [ {| fname := [x73]; fkind := KStr 3; forder := NA; fshape := [] |};
-              {| fname := [x69]; fkind := KInt true 4; forder := LE; fshape := [] |} ];
-     trows := [ [[[x20; x20; x61]]; [[x01; x00; x00; x00]]]; [[[x20; x20; x62]]; [[x02; x00; x00; x00]]] ] |}.
 
 Theorem C04_full_refuted : exists F P d t,
   table_ok t /\ delim_ok d /\ fcontract F P t /\ strings_noeol t
@@ -121,6 +114,13 @@ Proof.
                 (write_text (fun _ e => e) x2c kf_witness) = Err ERuntime) by (vm_compute; reflexivity).
   rewrite E. intros [tout [H _]]. discriminate.
 Qed.
+
+(* ---- every clause of the class is needed: each has an in-scope member on which the read fails *)
+Theorem C04_known_class_each_clause_refuted :
+  refutes x2c kf_witness /\ refutes x3b w_delim /\ refutes x09 w_tab
+  /\ kf_leading_ws_after_numeric x2c w_tab = false /\ kf_leading_ws_after_numeric x2c w_delim = false
+  /\ kf_leading_ws_after_numeric space kf_witness = false.
+Proof. exact kf_clause_witnesses. Qed.
 
 (* ---- the stored header records the delimiter and a byte-order-free dtype *)
 Theorem C04_header : forall d t, header_ok d t (header_delim d, header_dtype (tdt t)).
@@ -166,10 +166,6 @@ Proof. exact verdict0_recfile. Qed.
 
 (* ---- non-vacuity: a table with a blank-leading string BEFORE the numeric cell in white-space mode, and the
    same with ',' and no leading blank, meet the hypotheses; the conclusion computes *)
-Definition nv_table : table :=
-  {| tdt := [ {| fname := [x69]; fkind := KInt true 2; forder := BE; fshape := [2] |};
-              {| fname := [x73]; fkind := KStr 3; forder := NA; fshape := [] |} ];
-     trows := [ [[[xff; xfe]; [x01; x00]]; [[x20; x61; x2c]]]; [[[x00; x07]; [x80; x00]]; [[x20; x20; x00]]] ] |}.
 Example C04_nonvacuous :
   table_ok nv_table /\ fcontract (fun _ e => e) (fun _ e => e) nv_table /\ strings_noeol nv_table
   /\ kf_leading_ws_after_numeric space nv_table = false /\ delim_ok space
